@@ -251,6 +251,27 @@ def check_emitter_reads_used_set(P, rule):
         rule.ok("no emission-side function reads the collector's full discovered-struct map")
 
 
+def check_filter_needs_derive(S, r5, fn=None):
+    """nothing but a derive list can make the per-attribute serde test answer true: every path on which it answers a constant `true` is one that
+    saw `derive` (a doc comment or `#[non_exhaustive]` is an attribute too, and is not a list).  Shared by C07-D5 / C02-D4 and C13-D3 (a comment
+    must not change what is generated)."""
+    if fn is None:
+        fn = S.fn("StructParser", "should_include")
+        if fn is None or fn.name != "should_include":
+            return
+    try:
+        from svlib import SVEval as _SV
+        paths_ = _SV(S).fn_paths(fn, None, lambda n: None)
+    except Exception:  # noqa
+        paths_ = []
+    for conds_, sv_ in paths_:
+        if sv_ == ("num", "True") and not any(re.search(r'is_ident\("derive"\)', c_) and not c_.startswith("not(") for c_ in conds_):
+            r5.bad(V(r5.id, "StructParser::" + fn.name, "accepts-without-derive:%s" % ";".join(conds_)[:80], "%s answers true on a path that never saw a derive list (%s): "
+                     "an item with a doc comment or another non-list attribute counts as a serde type" % (fn.name, "; ".join(conds_)[:120])))
+    if paths_:
+        r5.ok("%s: %d paths, a constant true only behind the derive test" % (fn.name, len(paths_)))
+
+
 def check_serde_filter(S, P, r5):
     """which items count as serde types; shared by C07-D5 and C02-D4"""
     fn = S.fn("StructParser", "should_include")
@@ -297,6 +318,7 @@ def check_serde_filter(S, P, r5):
             r5.bad(V(r5.id, "StructParser::should_include", "predicate:%s:%s" % (sorted(set(lits)), sorted(set(ops))), "the serde filter tests %s combined with %s" % (sorted(set(lits)), sorted(set(ops)))))
     if fn is not None:
         check_flag_accumulation(fn, r5)
+        check_filter_needs_derive(S, r5, fn)
     # ... asked of every attribute of the item (an item may carry several #[derive(..)] attributes): the per-attribute test is repeated over the whole
     # attribute list, not applied to the first `derive` found
     PARTIAL_SEL = {"find", "find_map", "first", "last", "nth", "take", "skip", "position", "rposition", "get", "split_first", "split_last", "next_back", "peekable"}
